@@ -4,6 +4,7 @@ import (
 	"context"
 	"errors"
 	"fmt"
+	"os"
 	"strings"
 	"time"
 
@@ -35,6 +36,12 @@ const (
 )
 
 var errOuterCause = errors.New("c13: configured cancel cause")
+
+// ocStrict (C13_OUTER_STRICT=1, off in every registered run) applies the
+// timeline-mode promptness oracle also to a reader whose request sits in the
+// 1-slot request channel BUFFER when its context ends. The unchanged RLock
+// does not watch ctx.Done() there (see NOTES.md, proposed_fix_1.diff).
+var ocStrict = os.Getenv("C13_OUTER_STRICT") == "1"
 
 type ocReader struct {
 	name            string
@@ -393,7 +400,9 @@ func outerClass(name, shutdown string) string {
 	switch {
 	case shutdown != "":
 		return "lock.OuterCancel/with-shutdown"
-	case strings.Contains(name, "H6 | S1;Rx"):
+	case strings.HasPrefix(name, "H6 | ") && strings.Contains(name, "| S2;Rx"):
+		return "lock.OuterCancel/queued-reader-context-ends-in-buffer"
+	case strings.HasPrefix(name, "H6 | ") && strings.Contains(name, "Rx"):
 		return "lock.OuterCancel/queued-reader-context-ends"
 	case strings.HasPrefix(name, "H"):
 		return "lock.OuterCancel/reader-admitted-between-writers-grace"
@@ -564,6 +573,17 @@ func outerQueueScenarios() []hx.Scenario {
 			for _, third := range []string{"", " | S2;Rp", " | S2;W"} {
 				add("outerw", "H6 | S1;Rx"+third, ocCfg{pcDelay: pc, timeline: tl, prompt: tl})
 			}
+		}
+		// a full pipeline behind the holding writer: request 1 (t=1) is being
+		// handled by the Run loop (blocked on the slot), request 2 (t=2) sits
+		// in the 1-slot channel buffer, request 3 (t=3) blocks on the channel
+		// send; the context of the LAST (or of the one in the buffer) ends at t=4
+		for _, a := range []string{"Rp", "W"} {
+			for _, b := range []string{"Rp", "W"} {
+				add("outerw", "H6 | S1;"+a+" | S2;"+b+" | S3;Rx", ocCfg{pcDelay: 4 * ocUnit, timeline: tl, prompt: tl})
+				add("outerw", "H6 | S1;"+a+" | S2;Rx | S3;"+b, ocCfg{pcDelay: 4 * ocUnit, timeline: tl, prompt: tl && ocStrict})
+			}
+			add("outerw", "H6 | S1;"+a+" | S2;Rx", ocCfg{pcDelay: 4 * ocUnit, timeline: tl, prompt: tl && ocStrict})
 		}
 	}
 	return out
